@@ -88,6 +88,7 @@ type c05Iter struct {
 	created           bool
 	masterProbeFailed bool
 	master            string // the recorded master when the iteration began
+	sentBefore        map[string]bool // statements sent before the probe of the master failed (they return later)
 }
 
 type c05Monitor struct {
@@ -113,7 +114,7 @@ func newC05Monitor(sc *Scen, sp c05Spec) *c05Monitor {
 			return
 		}
 		if begin {
-			m.it[inst] = &c05Iter{master: s.CachedMaster(), begin: s.W.Now(), health: map[string]string{}, ping: map[string]bool{}, rs: map[string]string{}, maint: "unread"}
+			m.it[inst] = &c05Iter{sentBefore: map[string]bool{}, master: s.CachedMaster(), begin: s.W.Now(), health: map[string]string{}, ping: map[string]bool{}, rs: map[string]string{}, maint: "unread"}
 			return
 		}
 		m.endIter(inst)
@@ -151,6 +152,16 @@ func newC05Monitor(sc *Scen, sp c05Spec) *c05Monitor {
 		}
 	})
 	s.W.Lock()
+	s.W.BeforeStmt = append(s.W.BeforeStmt, func(w *world.World, c *world.StmtCtx) {
+		if !c.Mut {
+			return
+		}
+		m.mu.Lock()
+		defer m.mu.Unlock()
+		if it := m.it[instOfCaller(c.Caller)]; it != nil && !it.masterProbeFailed {
+			it.sentBefore[fmt.Sprintf("%s|%s|%d", c.Host, c.Class, c.Occ)] = true
+		}
+	})
 	s.W.AfterStmt = append(s.W.AfterStmt, func(w *world.World, c *world.StmtCtx) {
 		inst := instOfCaller(c.Caller)
 		m.mu.Lock()
@@ -171,7 +182,7 @@ func newC05Monitor(sc *Scen, sp c05Spec) *c05Monitor {
 				it.rs[c.Host] = "error"
 			}
 		}
-		if c.Mut && it.masterProbeFailed {
+		if c.Mut && it.masterProbeFailed && !it.sentBefore[fmt.Sprintf("%s|%s|%d", c.Host, c.Class, c.Occ)] {
 			it.acts = append(it.acts, "sql "+c.Class+"@"+c.Host)
 		}
 		if (c.Class == "ping" || c.Class == "dial") && c.Host == it.master && c.Errno != 0 {
